@@ -446,6 +446,7 @@ PRIM_SRCS = [
     'import basket as k', 'import basket', 'import p . q as r', 'import p \\\n .q as r, s', 'import a.b.cas as k, important', 'import aas as asa',
     'from fromage import basket as k', 'from . import x', 'from .m import (x as y, z)', 'from .. import (a\n  as\n  b)', 'from . m . n import x',
     'from .a.b import c', 'from m import (a as b, c)', 'from m import é as è, ü',
+    'x = 1.5.real', 'x = "ab".upper()', 'x = 2j.imag', 'x = (1).real', 'x = 1e3.real + 0x1f.real', 'x = b"ab".hex()', 'x = None.__class__', 'x = ....__class__',
     'x = basket.asset.isinstance_', 'x = a . b . c', 'x = a \\\n .b', 'x = (a).b', 'x = 1 .real', 'x = é.ü',
     'def define(arg, /, largs=1, *args, kwarg, **kwargs): pass', 'async def asyncio_(self): pass', 'class classy(base, metaclass=meta): pass',
     '@d\ndef   spaced  (a): pass', 'def f[T, *Ts, **P](): pass', 'class C[Tclass: int]: pass', 'type Typed[T] = T',
